@@ -125,9 +125,20 @@ fn gen_cell(rng: &mut Rng, lang: LangId, bits: u32) -> Cell {
     if rng.chance(2, 3) {
         let mut tm = HashMap::new();
         for (k, v) in [("Stamp", "MappedStamp"), ("Blob", "MappedBlob"), ("UserId", "MappedUser")] {
-            if rng.coin() {
-                tm.insert(k.to_string(), v.to_string());
+            // absent, mapped to another name, or mapped to itself (which is not "no mapping": a mapped name takes no
+            // prefix and loses its type arguments)
+            match rng.below(5) {
+                0 | 1 => {
+                    tm.insert(k.to_string(), v.to_string());
+                }
+                2 => {
+                    tm.insert(k.to_string(), k.to_string());
+                }
+                _ => {}
             }
+        }
+        if rng.chance(1, 4) {
+            tm.insert("Paged".to_string(), "Paged".to_string());
         }
         if matches!(lang, LangId::Ts | LangId::Go | LangId::Python) && rng.coin() {
             tm.insert("Vec<String>".to_string(), "MappedStrings".to_string());
@@ -329,7 +340,9 @@ pub fn run(ctx: &Ctx) -> (Spec, Report) {
                     }
                 }
                 for (from, to) in &eff.type_mappings {
-                    if ["Stamp", "Blob", "UserId"].contains(&from.as_str()) {
+                    // (a name mapped to itself is judged by the byte comparison below: its spelling in the output is the
+                    // type's own, which Go may re-case under an acronym table)
+                    if ["Stamp", "Blob", "UserId"].contains(&from.as_str()) && from != to {
                         rep.count("file_only_settings_checked_on_text", 1);
                         if !got.contains(to.as_str()) {
                             rep.violate(format!("C20|{lname}|file-only-setting-not-applied|type_mappings"), format!("type mapping {from} -> {to} leaves no trace in the output"), detail(json!({"mapping": [from, to]})));
@@ -487,7 +500,7 @@ pub fn run(ctx: &Ctx) -> (Spec, Report) {
     let _ = std::fs::remove_dir_all(&scratch);
     let spec = Spec {
         level: "exploration",
-        rule: format!("{} cells of the real binary: for each language the full {{absent, present}} x {{absent, present}} matrix on the command line x in the file for every dual option (swift-prefix; kotlin-prefix x java-package x module-name; scala-package x scala-module-name; go-package), combined with random file-only tables (type_mappings, default_decorators, default_generic_constraints, codablevoid_constraints, uppercase_acronyms, no_pointer_slice), the config found by -c, by ancestor search from cwd depth 0-3, or absent, half of the runs with a second, losing configuration (one or two levels further up the ancestor chain, or in the working directory when -c names another file); every other cell starting over an output of equal length left by other settings; oracle: output bytes equal the library pipeline run with cli ?? file ?? default; plus {n_g} generate-config runs (random option subsets, default and explicit path): behavioural round trip for all 6 languages and a second -g under strace that must fail without touching the file; distinct = (language, per-option source, discovery)", cells.len()),
+        rule: format!("{} cells of the real binary: for each language the full {{absent, present}} x {{absent, present}} matrix on the command line x in the file for every dual option (swift-prefix; kotlin-prefix x java-package x module-name; scala-package x scala-module-name; go-package), combined with random file-only tables (type_mappings incl. entries that map a name to itself, default_decorators, default_generic_constraints, codablevoid_constraints, uppercase_acronyms, no_pointer_slice), the config found by -c, by ancestor search from cwd depth 0-3, or absent, half of the runs with a second, losing configuration (one or two levels further up the ancestor chain, or in the working directory when -c names another file); every other cell starting over an output of equal length left by other settings; oracle: output bytes equal the library pipeline run with cli ?? file ?? default; plus {n_g} generate-config runs (random option subsets, default and explicit path): behavioural round trip for all 6 languages and a second -g under strace that must fail without touching the file; distinct = (language, per-option source, discovery)", cells.len()),
         assumptions: vec![
             "the library driver's construction of backend structs from a configuration mirrors cli/src/main.rs::language()".into(),
             "Scala without any package panics and Go without any package is refused: both are accepted outcomes here (the panic is C07's)".into(),
